@@ -145,7 +145,7 @@ impl Classes {
 }
 
 /// Build the graph on a fresh engine, compute once, judge. `edges` must contain no edge from outside S into S.
-fn eval_graph(cx: &Ctx<'_>, cl: Classes, edges: &[(u32, u32)], equal_stats: bool, rank: &[u64], describe: &dyn Fn() -> Value) {
+fn eval_graph(cx: &Ctx<'_>, cl: Classes, edges: &[(u32, u32)], neg_edges: &[(u32, u32)], equal_stats: bool, rank: &[u64], describe: &dyn Fn() -> Value) {
     debug_assert!(edges.iter().all(|(i, j)| !cl.is_sybil(*j) || cl.is_sybil(*i)));
     let n = cl.n();
     // population the engine has heard of
@@ -159,6 +159,10 @@ fn eval_graph(cx: &Ctx<'_>, cl: Classes, edges: &[(u32, u32)], equal_stats: bool
         heard.insert(*j);
         has_out.insert(*i);
     }
+    for (i, j) in neg_edges {
+        heard.insert(*i);
+        heard.insert(*j);
+    }
     let v_eff = heard.len();
     let s_eff = heard.iter().filter(|i| cl.is_sybil(**i)).count();
     cx.distinct.eval();
@@ -170,6 +174,10 @@ fn eval_graph(cx: &Ctx<'_>, cl: Classes, edges: &[(u32, u32)], equal_stats: bool
         let e = EigenTrustEngine::new((0..cl.a).map(nid).collect::<HashSet<_>>());
         for (i, j) in edges {
             AssertUnwindSafe(e.update_local_trust(&nid(*i), &nid(*j), true)).catch_unwind().await.map_err(|m| ("update_local_trust".to_string(), panic_msg(m)))?;
+        }
+        // failure-only statements (local trust exactly 0): they vouch for nobody
+        for (i, j) in neg_edges {
+            AssertUnwindSafe(e.update_local_trust(&nid(*i), &nid(*j), false)).catch_unwind().await.map_err(|m| ("update_local_trust".to_string(), panic_msg(m)))?;
         }
         if equal_stats {
             for i in 0..n {
@@ -357,7 +365,7 @@ fn enumerate(cx: &Ctx<'_>, cl: Classes, equal_stats: bool, budget: &Budget) -> (
                        "edges(from->to, one success each)": edges.iter().map(|(i, j)| format!("{}->{}", cl.name(*i), cl.name(*j))).collect::<Vec<_>>(),
                        "statistics": if equal_stats { "CorrectResponse + Uptime(3600) for every node" } else { "none" }})
             };
-            eval_graph(cx, cl, &edges, equal_stats, &rank, &describe);
+            eval_graph(cx, cl, &edges, &[], equal_stats, &rank, &describe);
         }
         reps.fetch_add(local, Ordering::Relaxed);
     });
@@ -388,6 +396,9 @@ struct Fam {
     ho: HonestShape,
     outward: bool,
     equal_stats: bool,
+    /// every non-Sybil node that makes no positive statement has recorded one failed interaction (with the next
+    /// non-Sybil node, or with Sybil S0 if it is alone): a statement that vouches for nobody
+    failures_only: bool,
 }
 
 fn fam_edges(f: &Fam) -> (Classes, Vec<(u32, u32)>) {
@@ -482,7 +493,10 @@ fn main() {
                                 if heavy && equal_stats {
                                     continue;
                                 }
-                                fams.push(Fam { s, a, h, sy, ho, outward, equal_stats });
+                                fams.push(Fam { s, a, h, sy, ho, outward, equal_stats, failures_only: false });
+                                if !equal_stats && !heavy && s <= 101 {
+                                    fams.push(Fam { s, a, h, sy, ho, outward, equal_stats, failures_only: true });
+                                }
                             }
                         }
                     }
@@ -507,10 +521,20 @@ fn main() {
         let rank = [1u64, cl.n() as u64, f.equal_stats as u64, edges.len() as u64, i as u64];
         let describe = || {
             json!({"sybils": f.s, "sybil_pattern": format!("{:?}", f.sy), "anchors": f.a, "honest_graph": format!("{:?}", f.ho), "honest_nodes": cl.h,
-                   "every_sybil_also_rates_anchor_P0": f.outward, "statistics": if f.equal_stats { "CorrectResponse + Uptime(3600) for every node" } else { "none" },
+                   "every_sybil_also_rates_anchor_P0": f.outward, "non_sybils_without_positive_statement_recorded_one_failed_interaction": f.failures_only, "statistics": if f.equal_stats { "CorrectResponse + Uptime(3600) for every node" } else { "none" },
                    "layout": "node ids: anchors P0.., honest H0.., sybils S0..; Ring = anchors+honest in one ring; StarFromAnchor = every anchor rates every honest node; AnchorsOnly = anchors rate each other in a ring; Star = S0<->Si; Chain = Si->Si+1; one success per edge"})
         };
-        eval_graph(&cx, cl, &edges, f.equal_stats, &rank, &describe);
+        let mut neg: Vec<(u32, u32)> = Vec::new();
+        if f.failures_only {
+            let s0 = cl.a + cl.h;
+            let out: BTreeSet<u32> = edges.iter().map(|(i, _)| *i).collect();
+            for i in 0..s0 {
+                if !out.contains(&i) {
+                    neg.push((i, if s0 >= 2 { (i + 1) % s0 } else { s0 }));
+                }
+            }
+        }
+        eval_graph(&cx, cl, &edges, &neg, f.equal_stats, &rank, &describe);
         fam_done.fetch_add(1, Ordering::Relaxed);
         if i % 401 == 0 {
             let mut s = fam_samples.lock().unwrap();
